@@ -1,9 +1,11 @@
 ---- MODULE MC_Viewer ----
 EXTENDS Viewer
 At(n, k) == [n |-> n, k |-> k]
-c_AttrMenu == {At("b", "num"), At("c", "cat"), At("x", "derived")}
-F(n, c, d) == [numeric |-> n, categorical |-> c, derived |-> d]
-c_Filters == {F(TRUE, TRUE, TRUE), F(TRUE, FALSE, TRUE), F(FALSE, TRUE, TRUE), F(TRUE, TRUE, FALSE), F(FALSE, FALSE, TRUE)}
+c_AttrMenu == {At("b", "num"), At("c", "cat"), At("x", "derived"), At("t", "time")}
+F(n, c, d) == [numeric |-> n, categorical |-> c, derived |-> d, datetime |-> TRUE]
+G(n, c, d, t) == [numeric |-> n, categorical |-> c, derived |-> d, datetime |-> t]
+c_Filters == {F(TRUE, TRUE, TRUE), F(TRUE, FALSE, TRUE), F(FALSE, TRUE, TRUE), F(TRUE, TRUE, FALSE), F(FALSE, FALSE, TRUE),
+              G(TRUE, TRUE, TRUE, FALSE), G(FALSE, FALSE, TRUE, TRUE)}     \* the datetime flag differing from the numeric one
 D5 == TLCGet("level") <= 6
 D4 == TLCGet("level") <= 5
 D6 == TLCGet("level") <= 7
